@@ -238,3 +238,63 @@ def retain_state_restores_the_grid_pitch_of_a_composite(p1: float, p2: float, a0
     assert eq(g.pitch, p1), "grid pitch as at entry"
     assert same(g._backup, prior), "the earlier grid back-up is in place again"
     assert c.p._p_temperatureInC == (t1 if keepT else t0)
+
+
+@lemma(gen={"a0": (0, 63), "shape1": [1, 2, 3]})
+def collection_backup_step_with_none_and_array_values(a0: int, shape1: int, t0: float, t1: float, d0: float, d1: float, e0: float, e1: float,
+                                                      n0: float, none0: bool, none1: bool, setT: bool, setP: bool, k0: bool, k1: bool,
+                                                      hasPrior: bool):
+    """the parameter kinds the lemmas above leave out (their values are always numbers / a dict): a parameter whose
+    entry value is None and / or that is set to None inside the scope (temperatureInC here), and an ARRAY parameter
+    (power here: two entries at entry, re-assigned inside the scope with 1..3 entries, i.e. also with another
+    shape): for every keep-set over the two, a parameter not kept has its entry value (None stays None, the array has
+    its entry shape and entries), a kept one its new value"""
+    shape1 = choose(shape1, 1, 3)
+    defs = mk_class(0, 0, 0)
+    prior = pickle.dumps(["state of the enclosing scope"]) if hasPrior else None
+    pc = mk_coll(prior, a0, None if none0 else t0, np.array([d0, d1]), n0)
+    pc.backUp()
+    if setT:
+        defs[0].__set__(pc, None if none1 else t1)
+    if setP:
+        defs[1].__set__(pc, np.array([e0, e1, e0 + e1][:shape1]))
+    pc.restoreBackup(keepset(defs, k0, k1, False))
+    T = pc._p_temperatureInC
+    if k0 and setT:
+        assert (T is None) if none1 else (T is not None and T == t1), "kept: the value assigned inside (None included)"
+    else:
+        assert (T is None) if none0 else (T is not None and T == t0), "not kept: the entry value (None stays None)"
+    P = pc._p_power
+    if k1 and setP:
+        assert P.shape == (shape1,) and P[0] == e0 and implies(shape1 >= 2, P[min(1, shape1 - 1)] == e1), "kept array: the new shape and entries"
+    else:
+        assert P.shape == (2,) and P[0] == d0 and P[1] == d1, "array not kept: entry shape and entries"
+    assert pc._p_numberDensities["U235"] == n0
+    assert (pc._backup is None) if not hasPrior else same_bytes(pc._backup, prior)
+
+
+@lemma(gen={"a0": (0, 63), "a1": (0, 63)})
+def retain_state_covers_the_material_of_the_scope_root(a0: int, a1: int, tA: float, tB: float, nT: float, kidHasMat: bool, keepT: bool):
+    """retain_state_on_a_parent_restores_every_descendant gives a material to descendants only; here the object the
+    scope is OPENED ON carries one itself (the case of a scope on a Component, fix c8b36b4), with 0..1 children: a
+    material property cached inside the scope is gone afterwards, the entry cache object is back, parameters of root
+    and child are restored as usual"""
+    defs = mk_class(0, 0, 0)
+    root = mk_node("root", mk_coll(None, a0, tA, 1.0, 1.0), True)
+    kid = mk_node("kid", mk_coll(None, a1, tB, 2.0, 2.0), kidHasMat)
+    root._children = [kid]
+    kid.parent = root
+    rootCache, kidCache = root.material.cached, (kid.material.cached if kidHasMat else None)
+    with root.retainState([defs[0]] if keepT else []):
+        assert len(root.material.cached) == 0, "inside the scope the material's cache starts empty"
+        root.material.cached["k"] = 7.0
+        if kidHasMat:
+            kid.material.cached["k"] = 8.0
+        defs[0].__set__(root.p, nT)
+        defs[0].__set__(kid.p, nT)
+    assert same(root.material.cached, rootCache) and "k" not in root.material.cached and "rho" in root.material.cached, "nothing cached inside leaks out of the root's material"
+    assert root.material._backupCache is None
+    if kidHasMat:
+        assert same(kid.material.cached, kidCache) and "k" not in kid.material.cached
+    assert root.p._p_temperatureInC == (nT if keepT else tA) and kid.p._p_temperatureInC == (nT if keepT else tB)
+    assert root.p._backup is None and kid.p._backup is None
